@@ -61,6 +61,14 @@ fn verif_native_command_total() {
         ("print", "Print { location: Memory(PCOffset(0)) }"),
         ("p", "Print { location: Memory(PCOffset(0)) }"),
         ("assembly", "Assembly { location: PCOffset(0) }"),
+        // the sign may come before OR after a radix prefix (Integer's documented syntax), also where an integer is required
+        ("move r1 x-5", "Move { location: Register(R1), value: 65531 }"),
+        ("move r1 -x5", "Move { location: Register(R1), value: 65531 }"),
+        ("move r2 b+101", "Move { location: Register(R2), value: 5 }"),
+        ("move r3 o-17", "Move { location: Register(R3), value: 65521 }"),
+        ("move r3 #-17", "Move { location: Register(R3), value: 65519 }"),
+        ("step into x+2", "StepInto { count: 2 }"),
+        ("step into 0b11", "StepInto { count: 3 }"),
         ("step into 0", "StepInto { count: 1 }"),
         ("step into", "StepInto { count: 1 }"),
         ("si 7", "StepInto { count: 7 }"),
